@@ -249,6 +249,15 @@ func (ra *Action) reclaimForTask(ssn *framework.Session, stmt *framework.Stateme
 			continue
 		}
 
+		// The queue (and, with hierarchical queues, every ancestor) must still admit the task
+		// once the victims are gone, as preemptorFitsOnNode checks in the preempt action.
+		if queue, found := ssn.Queues[job.Queue]; found && !ssn.Allocatable(queue, task) {
+			klog.V(3).Infof("Queue <%s> is not allocatable for task <%s/%s> after reclaiming on Node <%s>.",
+				queue.Name, task.Namespace, task.Name, n.Name)
+			nodeStmt.Discard()
+			continue
+		}
+
 		if err := nodeStmt.Pipeline(task, n.Name, evictionOccurred); err != nil {
 			klog.Errorf("Failed to pipeline Task <%s/%s> on Node <%s>",
 				task.Namespace, task.Name, n.Name)
